@@ -410,6 +410,23 @@ func histConfig(g *pkgGen, i int) *genOut {
 			c.Overrides[f] = ov
 		}
 	}
+	// entries addressed to a packager in a spelling the packagers do not recognise (they belong to nobody), next to
+	// properly addressed ones: nothing may "tidy" the tag on the shared entry
+	c.Contents = append(c.Contents,
+		&files.Content{Source: "src/f1", Destination: fmt.Sprintf("/opt/hist%d/for-RPM", i), Packager: "RPM"},
+		&files.Content{Source: "src/f1", Destination: fmt.Sprintf("/opt/hist%d/for-deb-padded", i), Packager: " deb "},
+		&files.Content{Source: "src/f1", Destination: fmt.Sprintf("/opt/hist%d/for-rpm", i), Packager: "rpm"})
+	// a list that lost an item while being parsed (the item expands to nothing): its backing array has room to spare,
+	// which is when an in-place insertion by a packager shows in the parsed configuration
+	c.Depends = append([]string{"${VERIF_EXPANDS_TO_NOTHING}"}, c.Depends...)
+	c.Suggests = append(c.Suggests, "${VERIF_EXPANDS_TO_NOTHING}")
+	if i%2 == 0 {
+		for _, sc := range []*string{&c.Deb.Scripts.Templates, &c.Deb.Scripts.Config} {
+			if *sc == "" {
+				*sc = "scripts/postinstall"
+			}
+		}
+	}
 	// the script an override block names exists whether or not the base configuration uses it
 	has := false
 	for _, f := range gen.files {
